@@ -163,6 +163,18 @@ def run(ctx):
         got = {l: n for l, n in zip(labels, counts) if n}
         ctx.check("count_kmers", got == dict(exp), "count_kmers/counts:%s" % wclass(k), "count_kmers differs from Counter of windows: %r vs %r" % (dict(list(got.items())[:4]), dict(list(exp.items())[:4])),
                   dict(c, got=got, expected=dict(exp)), (ename, tuple(rows), k))
+        # per-sample results kept while a total is accumulated from them (0 + c1 + c2, +=): the samples keep their own counts
+        half = len(rows) // 2
+        if len(rows) >= 2 and got == dict(exp) and sum(map(len, rows[:half])) >= k and sum(map(len, rows[half:])) >= k:
+            parts = [count_kmers(seqs[:half], k), count_kmers(seqs[half:], k)]
+            first_before = np.asarray(parts[0].counts).ravel().tolist()
+            total = 0
+            for pc in parts:
+                total += pc
+            tot = {l: n for l, n in zip(total.alphabet, np.asarray(total.counts).ravel().tolist()) if n}
+            first_after = np.asarray(parts[0].counts).ravel().tolist()
+            ctx.check("count_kmers", tot == dict(exp) and first_after == first_before, "count_kmers/accumulated-total-or-sample-changed", "0 + counts of the two halves gave %r (expected %r); first sample before/after the accumulation: %r / %r" % (dict(list(tot.items())[:4]), dict(list(exp.items())[:4]), first_before[:6], first_after[:6]),
+                      dict(c, total=tot), (ename, tuple(rows), k, "acc"))
 
     def case_minimizers(c):
         ename, rows, k, w = c["enc"], c["rows"], c["k"], c["w"]
@@ -200,7 +212,19 @@ def run(ctx):
             logm = np.log(np.array(mat, dtype=float))
         seqs = bnp.as_encoded_array(rows) if ename == "ascii" else bnp.as_encoded_array(rows, encs[ename])
         seqs, rows = selected(seqs, rows, c)
-        res = bnp.get_motif_scores(seqs, pwm)
+        if ename in ("ACTGEncoding", "ACGTnEncoding"):
+            # reads already encoded with the motif's letters in another order / a larger alphabet: the scores of the TEXT, or a refusal
+            try:
+                res = bnp.get_motif_scores(seqs, pwm)
+            except Exception as e:
+                from bnpmon.ctx import originates_in_library
+                if not originates_in_library(e):
+                    raise
+                ctx.judged("get_motif_scores", None)
+                ctx.count("motif_refused_for_other_letter_order")
+                return
+        else:
+            res = bnp.get_motif_scores(seqs, pwm)
         sanitize(res, "get_motif_scores", c)
         got = res.tolist()
         exp = [[float(sum(logm[alphabet.index(ch), j] for j, ch in enumerate(wd))) for wd in windows(r, w)] for r in rows]
@@ -253,7 +277,7 @@ def run(ctx):
             al = "ACGT"
             rows2 = gen_rows(rng, al, w2)
             mat = [[rng.choice([0.0, 0.1, 0.25, 0.5, 1.0]) for _ in range(w2)] for _ in al]
-            ctx.run_case(case_motif, {"fn": "get_motif_scores", "enc": rng.choice(["ascii", "ACGTEncoding"]), "rows": rows2, "matrix": mat, "alphabet": al, "select": gen_select(rows2, w2)})
+            ctx.run_case(case_motif, {"fn": "get_motif_scores", "enc": rng.choice(["ascii", "ACGTEncoding", "ACTGEncoding", "ACGTnEncoding"]), "rows": rows2, "matrix": mat, "alphabet": al, "select": gen_select(rows2, w2)})
         else:
             kmers = ["".join(rng.choice(alphabet) for _ in range(w)) for _ in range(rng.randint(1, 4))]
             ctx.run_case(case_kmer_encoding, {"fn": "KmerEncoding", "enc": ename, "k": w, "kmers": kmers})
